@@ -124,6 +124,60 @@ def lean_str(s):
     return '"' + s.replace("\\", "\\\\").replace('"', '\\"') + '"'
 
 
+def _lean_strings(text):
+    """{def name: [string, …]} of a generated skeleton file"""
+    import re
+    cur, d = None, {}
+    for line in text.splitlines():
+        m = re.match(r'def (\w+) : List String', line)
+        if m:
+            cur = m.group(1)
+            d[cur] = []
+            line = line.split(":=", 1)[1] if ":=" in line else ""
+        m = re.match(r'^\[?\s*"(.*)"[,\]]*$', line.strip()) if cur else None
+        if m:
+            d[cur].append(m.group(1).replace('\\"', '"').replace('\\\\', '\\'))
+    return d
+
+
+def _unify_locals(tmpl, recorded, cur_names=None):
+    """tmpl: tokens of one function with every local as a marker zzL<k>zz; recorded: the tokens of the recorded skeleton.
+    Returns {k: name} if the template equals the recorded tokens under an injective naming of the locals that captures no
+    other identifier of the function, else None."""
+    import re
+    if len(tmpl) != len(recorded):
+        return None
+    bind = {}
+    for t, c in zip(tmpl, recorded):
+        parts = re.split(r'zzL(\d+)zz', t)
+        rx, order = "", []
+        for i, part in enumerate(parts):
+            if i % 2 == 0:
+                rx += re.escape(part)
+            else:
+                rx += r'([A-Za-z_]\w*)'
+                order.append(int(part))
+        m = re.fullmatch(rx, c)
+        if not m:
+            return None
+        for k, name in zip(order, m.groups()):
+            if bind.setdefault(k, name) != name:
+                return None
+    # the renaming must be a bijection on NAMES (two objects may share a name in different scopes, e.g. the `seq` of
+    # the two loops of processBatch: then they must share it before and after)
+    fwd, bwd = {}, {}
+    for k, name in bind.items():
+        cur = cur_names[k] if cur_names and k < len(cur_names) else f"#{k}"
+        if fwd.setdefault(cur, name) != name or bwd.setdefault(name, cur) != cur:
+            return None
+    others = set()
+    for t in tmpl:
+        others |= set(re.findall(r'(?<![\w.])[A-Za-z_]\w*', re.sub(r'zzL\d+zz', ' ', t)))   # not field / method selectors
+    if any(n in others for n in bind.values()):
+        return None
+    return bind
+
+
 def regenerate(ctx):
     """Tie 1: go/ast skeleton of the output statements of processBatch/removeSequence/flushPending in both runners."""
     rc, out, outdir = ctx.go_test("./runner/common/", OV_COMMON, "^TestVerifC14Extract$")
@@ -133,6 +187,51 @@ def regenerate(ctx):
         for line in open(p):
             r, fn, tok = line.rstrip("\n").split("\t", 2)
             rows[r].append(f"{fn}: {tok}")
+    # a skeleton that differs from the recorded one only by the NAMES of local variables is the same skeleton: the
+    # extractor also prints every function with its locals as markers (by object, not by name); if the markers can be
+    # named so that the recorded tokens come out (injective, no capture), the recorded tokens are written
+    import subprocess
+    recorded = _lean_strings(subprocess.run(["git", "show", "HEAD:lean/OllamaVerif/Generated/C14_Skeleton.lean"], cwd=core.ROOT,
+                                            stdout=subprocess.PIPE, stderr=subprocess.DEVNULL, text=True).stdout)
+    pt = os.path.join(outdir, "skeleton_tmpl.txt")
+    renamed = []
+    if rc == 0 and os.path.exists(pt):
+        tmpl = {}
+        names = {}
+        for line in open(pt):
+            r, fn, tok = line.rstrip("\n").split("\t", 2)
+            if tok.startswith("#locals\t"):
+                names[(r, fn)] = tok.split("\t", 1)[1].split(",")
+                continue
+            tmpl.setdefault((r, fn), []).append(tok)
+        for r, key in (("ollamarunner", "ollama"), ("llamarunner", "llama")):
+            rec = recorded.get(key, [])
+            if rows[r] == rec:
+                continue
+            out_rows, ok = [], True
+            fns = []
+            for x in rows[r]:
+                fn = x.split(": ", 1)[0]
+                if fn not in fns:
+                    fns.append(fn)
+            for fn in fns:
+                cur = [x for x in rows[r] if x.startswith(fn + ": ")]
+                want = [x for x in rec if x.startswith(fn + ": ")]
+                if cur == want:
+                    out_rows += cur
+                    continue
+                b = _unify_locals([f"{fn}: {t}" for t in tmpl.get((r, fn), [])], want, names.get((r, fn)))
+                if b is None:
+                    ok = False
+                    break
+                out_rows += want
+                nm = names.get((r, fn), [])
+                renamed += [f"{r}.{fn}: {nm[k]} -> {v}" for k, v in sorted(b.items()) if k < len(nm) and nm[k] != v]
+            if ok and out_rows == rec:
+                rows[r] = rec
+    if renamed:
+        ctx.coverage["skeleton_equal_up_to_local_names"] = renamed[:20]
+
     def lst(xs):
         return "[\n  " + ",\n  ".join(lean_str(x) for x in xs) + "]" if xs else "[]"
     body = ("-- REGENERATED on every run by vlib/checks/c14.py from /repo's working tree (go/ast). Do not edit.\n"
